@@ -134,7 +134,18 @@ impl FilePath {
     /// * [`Path::len()`] + [`FileName::len()`] + 1 <= [`FilePath::max_len()`]
     ///
     pub const unsafe fn from_path_and_file_unchecked(path: &Path, file: &FileName) -> Self {
-        debug_assert!(path.as_bytes_const().len() + file.as_bytes_const().len() + 1 < PATH_LENGTH);
+        // the separator is only added when the path is not empty and does not end with one
+        let separator_len = {
+            let path_bytes = path.as_bytes_const();
+            if 0 < path_bytes.len() && path_bytes[path_bytes.len() - 1] != PATH_SEPARATOR {
+                1
+            } else {
+                0
+            }
+        };
+        debug_assert!(
+            path.as_bytes_const().len() + separator_len + file.as_bytes_const().len() <= PATH_LENGTH
+        );
 
         let mut buffer = [0u8; PATH_LENGTH];
         let mut buffer_len = path.as_bytes_const().len();
